@@ -12,7 +12,8 @@
 (***************************************************************************)
 EXTENDS Naturals, Sequences, FiniteSets, TLC
 (* a plan: [fp : subset of fail points, nameFail : Nat (threads whose name read fails), threads : Nat (threads enumerated),
-            exited : Nat (threads gone before attach), rsp0 : Nat (sandbox threads), prinNotRef : BOOLEAN,
+            exited : Nat (threads gone before attach), refused : Nat (threads another tracer holds: attach gives EPERM),
+            rsp0 : Nat (sandbox threads), prinNotRef : BOOLEAN,
             dsoFail : BOOLEAN, handlesFail : BOOLEAN] *)
 FailPoints == {"StopProcess", "FillMissingAuxvInfo", "ThreadName", "SuspendThreads", "CpuInfoFileOpen"}
 (* files the writer copies (and partly parses) whose reading can fail: plan.unreadable is the set that cannot be opened *)
@@ -29,9 +30,9 @@ Contribution(step, p) ==
                                      ELSE (IF "auxv" \in p.unreadable THEN <<"InitErrors/FillMissingAuxvInfoErrors/IOError">> ELSE <<>>)       \* the read of the first pair fails
                                           \o (IF "FillMissingAuxvInfo" \in p.fp THEN <<"InitErrors/FillMissingAuxvInfoErrors/InvalidFormat">> ELSE <<>>)
     [] step = "enumerate_threads" -> Rep(IF "ThreadName" \in p.fp THEN p.threads ELSE p.nameFail, "InitErrors/EnumerateThreadsErrors/ReadThreadNameFailed")
-    [] step = "suspend_threads"   -> Rep(p.exited, "SuspendThreadsErrors/PtraceAttachError") \o Rep(p.rsp0, "SuspendThreadsErrors/DetachSkippedThread")
+    [] step = "suspend_threads"   -> Rep(p.exited + p.refused, "SuspendThreadsErrors/PtraceAttachError") \o Rep(p.rsp0, "SuspendThreadsErrors/DetachSkippedThread")
                                       \o (IF "SuspendThreads" \in p.fp THEN <<"SuspendThreadsErrors/PtraceAttachError">> ELSE <<>>)
-    [] step = "no_threads_left"   -> IF p.threads = p.exited + p.rsp0 THEN <<"SuspendNoThreadsLeft">> ELSE <<>>
+    [] step = "no_threads_left"   -> IF p.threads = p.exited + p.refused + p.rsp0 THEN <<"SuspendNoThreadsLeft">> ELSE <<>>
     [] step = "principal"         -> IF p.prinNotRef THEN <<"PrincipalMappingNotReferenced">> ELSE <<>>
     [] step = "sysinfo"           -> IF "CpuInfoFileOpen" \in p.fp \/ "cpuinfo" \in p.unreadable THEN <<"WriteSystemInfoErrors/WriteCpuInformationFailed/IOError">> ELSE <<>>
     [] step \in Files             -> IF step \in p.unreadable THEN <<CopyError[step]>> ELSE <<>>
@@ -48,9 +49,9 @@ BagOf(s) == [x \in {s[k] : k \in 1..Len(s)} |-> Cardinality({k \in 1..Len(s) : s
 CONSTANTS MaxThreads
 VARIABLES plan, step, errs, zero, result
 vars == <<plan, step, errs, zero, result>>
-Init == /\ plan \in [fp : SUBSET FailPoints, nameFail : 0..1, threads : 1..MaxThreads, exited : 0..1, rsp0 : 0..1, prinNotRef : BOOLEAN,
+Init == /\ plan \in [fp : SUBSET FailPoints, nameFail : 0..1, threads : 1..MaxThreads, exited : 0..1, refused : 0..1, rsp0 : 0..1, prinNotRef : BOOLEAN,
                      dsoFail : BOOLEAN, handlesFail : BOOLEAN, auxvComplete : BOOLEAN, unreadable : SUBSET Files]
-        /\ plan.exited + plan.rsp0 <= plan.threads /\ plan.nameFail <= plan.threads
+        /\ plan.exited + plan.refused + plan.rsp0 <= plan.threads /\ plan.nameFail <= plan.threads
         /\ ("auxv" \in plan.unreadable /\ ~plan.auxvComplete => plan.dsoFail)       \* without program-header values there is no linker data
         /\ step = 1 /\ errs = <<>> /\ zero = {} /\ result = "running"
 Advance == /\ result = "running" /\ step <= Len(StepNames)
